@@ -310,7 +310,15 @@ func (p DHCP4) AppendOptions(options DHCP4Options, order []byte) int {
 	order = append(order, optionsReplyParametersList...)
 
 	// first copy parameters in order
-	for _, code := range order {
+	for i := 0; i < len(order); i++ {
+		code := order[i]
+		if DHCP4OptionCode(code) == DHCP4OptionRouter || DHCP4OptionCode(code) == DHCP4OptionStaticRoute {
+			// RFC 2132 3.3: the subnet mask must precede the router option, whatever order the client asked for
+			if _, ok := options[DHCP4OptionSubnetMask]; ok {
+				code = byte(DHCP4OptionSubnetMask)
+				i--
+			}
+		}
 		if value, ok := options[DHCP4OptionCode(code)]; ok {
 			buffer[pos] = byte(code)
 			buffer[pos+1] = byte(len(value))
